@@ -1,3 +1,4 @@
+\* quick profile A (the driver writes one cfg per profile, see harness/c04_params.py)
 CONSTANTS
   MaxRecs = 2
   MaxItems = 2
@@ -14,6 +15,8 @@ CONSTANTS
   TailLowKinds = {"none", "val"}
   TailUpKinds = {"none", "val"}
   NEditVals = 1
+  NSlices = 1
+  Slice = 0
 INIT Init
 NEXT Next
 INVARIANT NamesUnique
